@@ -204,9 +204,13 @@ def judge(ctx, events, metas, verdicts):
             clauses[c] = clauses.get(c, 0) + 1
             text, repro = describe(e, m)
             if c == "sine_sign":
-                cls = {"sine_terms": True, "kind": e["kind"]}
-            else:
-                cls = {"kind": e["kind"], "family": e["fam"]}
+                # Observation, not a clause of C10: the property fixes indices, radial value,
+                # orthonormality, linearity and fit recovery - not the sign convention of the
+                # sine terms.  The library's sine terms are -N R sin(|m| phi); counted only.
+                ctx.extra["observation_sine_terms_have_opposite_sign"] = \
+                    ctx.extra.get("observation_sine_terms_have_opposite_sign", 0) + 1
+                continue
+            cls = {"kind": e["kind"], "family": e["fam"]}
             ctx.report(c, cls, "%s: clause %s fails" % (text, c), repro)
     return bykind, clauses
 
